@@ -15,6 +15,7 @@ import (
 	"os"
 	"runtime/debug"
 	"runtime/pprof"
+	"sync"
 	"sync/atomic"
 	"time"
 
@@ -49,6 +50,9 @@ func runOnce(c Case) (observed, bool) {
 func check(c Case) verdict {
 	if c.Payload == "sequence" {
 		return checkSequence(c)
+	}
+	if c.Payload == "ladder" {
+		return checkLadder(c)
 	}
 	o, ok := runOnce(c)
 	if !ok {
@@ -461,7 +465,7 @@ func main() {
 		r.LoadReplay(&c)
 		var o observed
 		ok := false
-		if c.Payload != "sequence" {
+		if c.Payload != "sequence" && c.Payload != "ladder" {
 			o, ok = runOnce(c)
 		}
 		v := check(c)
@@ -526,6 +530,63 @@ func main() {
 		perSweep[sw.name] = cases.Load()
 		if os.Getenv("C11_TIMES") != "" {
 			fmt.Fprintf(os.Stderr, "%s: %d cases, %.1fs since start\n", sw.name, cases.Load(), time.Since(t0).Seconds())
+		}
+	}
+	// ---- G: size ladder, a few cases at a time ----
+	rungs := []int{4097, 32769, 1<<20 + 1, 10<<20 + 1}
+	if r.Thorough() {
+		rungs = []int{4095, 4096, 4097, 32767, 32768, 32769, 65537, 1<<20 + 1, 10<<20 - 1, 10 << 20, 10<<20 + 1, 32<<20 + 1}
+	}
+	var ladder []Case
+	for _, n := range rungs {
+		for _, k := range []string{"reader", "readcloser", "bytes", "file"} {
+			for _, a := range []authMode{{"none", 0}, {"op", 1}} {
+				for _, ob := range []string{"direct", "wire"} {
+					media := runtime.DefaultMime
+					if k == "file" {
+						media = runtime.MultipartFormMime
+					}
+					ladder = append(ladder, Case{Payload: "ladder", Media: media, Ladder: &LadderSpec{Kind: k, Len: n}, Auth: a.Auth, GetBody: a.GetBody, Observe: ob, Method: "POST"})
+				}
+			}
+		}
+	}
+	const ladderWorkers = 3
+	r.Set("size_ladder", map[string]any{"lengths": rungs, "kinds": []string{"reader", "readcloser", "bytes", "file"}, "auth": []string{"none", "op+1 GetBody"},
+		"observe": []string{"direct", "wire"}, "cases": len(ladder), "parallelism": ladderWorkers, "compare": "length + sha256, streamed"})
+	{
+		var next atomic.Int64
+		var wg sync.WaitGroup
+		var done atomic.Int64
+		for w := 0; w < ladderWorkers; w++ {
+			wg.Add(1)
+			go func() {
+				defer wg.Done()
+				for {
+					i := int(next.Add(1) - 1)
+					if i >= len(ladder) || r.OutOfTime() || hung.Load() {
+						return
+					}
+					c := ladder[i]
+					v := check(c)
+					r.Eval(1)
+					if v.nontrivial {
+						r.Nontrivial(1)
+					}
+					for _, o := range v.outcomes {
+						r.Outcome(o, 1)
+					}
+					if v.class != "" {
+						r.Fail(v.class, v.what, c)
+					}
+					done.Add(1)
+				}
+			}()
+		}
+		wg.Wait()
+		perSweep["G:size-ladder"] = done.Load()
+		if os.Getenv("C11_TIMES") != "" {
+			fmt.Fprintf(os.Stderr, "G:size-ladder: %d cases, %.1fs since start\n", done.Load(), time.Since(t0).Seconds())
 		}
 	}
 	r.Set("cases_per_sweep", perSweep)
